@@ -303,12 +303,21 @@ PROPS = {
              "join and analytic handlers and not in clauses or set operators. Found and repaired: avg folded pairwise over 3+ "
              "joined datasets. Does not decide the propagated values DuckDB computes.",
         note="Known findings: the enumerated fold over a group (list_reduce(list(col))) is input-order dependent (two forms)."),
+    "C02": dict(
+        claimed=True, design="§12.7 C02",
+        technique="abstract interpretation over a finite structure domain (component names and roles): the interpreter's clause validators, the StructureVisitor's clause builders and the SQL clause handlers are read from source and evaluated by the E6 evaluator on mock structures for every small operand list; their component sets / SELECT lists / WHERE conditions are compared; three-valued evaluation of the filter predicate; restoring-context-manager rule; typed field-read inventory",
+        text="Decides the structural half of the clause property: for calc, keep, drop, rename and sub the three pieces of code that say "
+             "which components the result has (semantic validator, transpiler structure builder, SELECT list of the generated SQL) agree on "
+             "every small operand list the validator accepts, i.e. the clause changes exactly the listed components; filter hands the "
+             "condition itself to WHERE (kept iff TRUE, also in the window-function variant) and changes no column; sub removes the fixed "
+             "identifiers and tests each with one equality; the clause scope is restored on every exit. Does not decide the per-datapoint "
+             "values of calc expressions and filter conditions.",
+        note="The abstract domain carries names and roles only (types and nullability are C10/C11's). SQLBuilder is modelled as an accumulator. "
+             "Operand lists of length 1-2 over a dataset with 2 identifiers, 3 measures, an attribute and a viral attribute; join-qualified names "
+             "(alias#component) are not in the domain."),
 }
 
 NA_REASONS = {
-    "C02": "clause semantics (which rows/columns filter, calc, keep, drop, rename, sub produce) is the relational meaning of "
-           "generated SQL evaluated by DuckDB over runtime data; no structural necessary condition that is not a frozen "
-           "fragment of today's SQL",
     "C29": "whether names differing only in case stay distinct is decided inside DuckDB's catalog/binder (identifiers are "
            "case-insensitive even when quoted), not by a construct in this repository that a static rule can inspect",
     "C31": "SLL-vs-LL equivalence is a property of the ANTLR ATN simulator on the grammar's ambiguity structure; no "
